@@ -38,6 +38,15 @@ def claim_sets():
     # registered claim names with plain values
     out += [{"iss": "joe", "sub": "s", "aud": ["a", "b"], "exp": 1300819380, "nbf": 1.5, "iat": 0, "jti": "id"},
             {"exp": 2 ** 40, "http://example.com/is_root": True}, {"": ""}, {"a": 1, "A": 2, "é": 3}]
+    # registered claim names carrying every kind of JSON value (a claims set is data: jwt.decode returns what was encoded, whatever the name)
+    odd = ["1900000000", "0017", "17", "", "never", "-5", "1.5", None, True, [1], {"v": 1}, 1e3, -1, "\u0661\u0662"]
+    for name in ("exp", "nbf", "iat") + (("aud", "iss", "sub", "jti") if deep else ("aud",)):
+        for v in odd if deep or name != "aud" else odd[:4]:
+            out.append({name: v})
+    # claims sets of sizes around the powers of two an implementation might treat specially (one long text member, one long list)
+    for n in (1000, 2030, 2050, 4090, 4100, 8200) + ((16390, 32770, 65540, 70000) if deep else (65540,)):
+        out.append({"blob": "x" * n})
+    out.append({"groups": ["group-%04d" % i for i in range(300)]})
     width = 3 if deep else 2
     base = pool if deep else vals[:8] + lvl1[:3] + lvl2[:2]
     for combo in itertools.combinations(range(len(base)), width):
